@@ -134,6 +134,8 @@ def push_uninit(N, obs_dtype, storage):
         return {"what": "C01/push_uninit/exception", "input": inp, "expected": "normal return", "actual": f"{type(e).__name__}: {e}"}
     if storage == "none" and rec.value.dtype != obs_dtype:
         return {"what": "C01/push_uninit/adopts_dtype", "input": inp, "expected": str(obs_dtype), "actual": str(rec.value.dtype), "stored": rec.peek().tolist(), "pushed": obs.tolist()}
+    if storage != "none" and rec.value.dtype != storage:
+        return {"what": "C01/push_uninit/typed_storage_keeps_its_dtype", "input": inp, "expected": str(storage), "actual": str(rec.value.dtype)}
     exp = obs.to(rec.value.dtype)
     if not torch.equal(rec.peek(), exp):
         return {"what": "C01/push_uninit/newest", "input": inp, "expected": exp.tolist(), "actual": rec.peek().tolist()}
